@@ -70,6 +70,44 @@ std::string fs(const Args& a) {
 				int rc = saveFile(nif, f[1], raw, trace);
 				st = rc == 0 ? "ok" : "save-rc" + std::to_string(rc);
 			}
+			else if (f[0] == "loosechain") {
+				// loosechain:<n> : n nodes, each the parent of the previous one, none referenced from the scene graph,
+				// stored children-before-parents
+				NiHeader& hdr = nif.GetHeader();
+				uint32_t prev = NIF_NPOS;
+				for (int k = 0; k < std::stoi(f[1]); ++k) {
+					auto n = std::make_unique<NiNode>();
+					n->name.get() = "loose" + std::to_string(k);
+					if (prev != NIF_NPOS)
+						n->childRefs.AddBlockRef(prev);
+					prev = hdr.AddBlock(std::move(n));
+				}
+				st = "ok";
+			}
+			else if (f[0] == "texprop") {
+				// texprop:<hexpath> : a shape with NiTexturingProperty -> NiSourceTexture(fileName = path) plus a string extra data
+				NiHeader& hdr = nif.GetHeader();
+				std::vector<Vector3> v = {Vector3(0, 0, 0), Vector3(1, 0, 0), Vector3(0, 1, 0)};
+				std::vector<Triangle> t = {Triangle(0, 1, 2)};
+				std::vector<Vector2> uv = {Vector2(0, 0), Vector2(1, 0), Vector2(0, 1)};
+				NiShape* shape = nif.CreateShapeFromData("TS", &v, &t, &uv);
+				auto src = std::make_unique<NiSourceTexture>();
+				src->fileName.get() = hexDecode(f[1]);
+				uint32_t sid = hdr.AddBlock(std::move(src));
+				auto tp = std::make_unique<NiTexturingProperty>();
+				tp->textureCount = 7;
+				tp->hasBaseTex = true;
+				tp->baseTex.sourceRef.index = sid;
+				uint32_t tid = hdr.AddBlock(std::move(tp));
+				if (shape)
+					shape->propertyRefs.AddBlockRef(tid);
+				auto ed = std::make_unique<NiStringExtraData>();
+				ed->name.get() = "tag";
+				ed->stringData.get() = "payload string";
+				if (nif.GetRootNode())
+					nif.AssignExtraData(nif.GetRootNode(), std::move(ed));
+				st = shape ? "ok" : "no-shape";
+			}
 			else if (f[0] == "edit") {
 				// edit:<seed>:<n> : n random block-graph edits through the public API
 				Rng rng(std::stoull(f[1]));
